@@ -136,7 +136,9 @@ func (s *shardManagerImpl) Leader(shardId int64) string {
 	if shard, ok := s.shards[shardId]; ok {
 		return shard.Leader
 	}
-	panic("shard not found")
+	// The shard was removed by a newer assignment while an operation for it was still pending:
+	// let the operation fail instead of taking the whole application down
+	return ""
 }
 
 func (s *shardManagerImpl) isClosed() bool {
